@@ -553,3 +553,30 @@ def uf_point_assignment(k=0, input_hyps=()):
             hyps.append(o == rv)
             subs.append((o, rv))
     return hyps
+
+
+def pc_point_probe(inputs, k=0, uf_from_model=False):
+    """point instantiation ON the current path: input values are taken from a model of the linear part of
+    (assumptions and path condition); uninterpreted-function results get congruence-respecting generic values (or,
+    with uf_from_model, the model's own values).  Returns hypotheses or None."""
+    s = z3.Solver()
+    s.set('timeout', 10000)
+    for c in ENG._linear_part():
+        s.add(c)
+    # prefer generic (pairwise different, non-zero) inputs where the path allows it
+    vars_ = [core.toz(v) for nm, v in sorted(inputs.items())]
+    if str(s.check()) != 'sat':
+        return None
+    m = s.model()
+    ih = []
+    for v in vars_:
+        val = m.eval(v, model_completion=True)
+        ih.append(v == val)
+    if uf_from_model:
+        uh = []
+        for fname, terms, outs in ENG.records.get('ack_order', []):
+            for o in outs:
+                uh.append(o == m.eval(o, model_completion=True))
+        return ih + uh
+    uh = uf_point_assignment(k, ih)
+    return None if uh is None else ih + uh
